@@ -18,6 +18,7 @@ pub mod c15;
 pub mod c16;
 pub mod c17;
 pub mod c18;
+pub mod c19;
 
 pub type Runner = fn(&Ctx);
 
@@ -41,6 +42,7 @@ pub fn lookup(id: &str) -> Option<(&'static str, Runner)> {
         "C16" => ("C16", c16::run as Runner),
         "C17" => ("C17", c17::run as Runner),
         "C18" => ("C18", c18::run as Runner),
+        "C19" => ("C19", c19::run as Runner),
         _ => return None,
     })
 }
